@@ -55,8 +55,8 @@ Local Open Scope N_scope.
 
 (* for every step of a shape the builtins create and each output: the Make and the Ninja emitter give its producing
    rule the same prerequisite set (stamp / phony alias followed, .dir sentinels and PHONY dropped) *)
-Theorem C06_deps : forall has st rs o,
-  shape_ok st = true -> NoDup (outs st) -> emit_make_step st = Some rs -> In o (outs st) ->
+Theorem C06_deps : forall fx has st rs o,
+  shape_ok st = true -> NoDup (outs st) -> emit_make_step fx st = Some rs -> In o (outs st) ->
   exists lm ln, make_prereqs rs o = Some lm /\ ninja_prereqs (fst (emit_ninja_step has st)) o = Some ln /\
                 set_eq lm ln.
 Proof. exact backends_same_deps. Qed.
@@ -64,8 +64,8 @@ Print Assumptions C06_deps.
 
 (* for every script the Make emitter accepts: the buildable (non-internal) targets of the two emitters coincide -
    every step output, all, tests, test, install, uninstall; .stamp, .dir and PHONY are internal *)
-Theorem C06_targets : forall sc rs,
-  emit_make sc = Some rs -> set_eq (make_buildable rs) (ninja_buildable (emit_ninja sc)).
+Theorem C06_targets : forall fx sc rs,
+  emit_make fx sc = Some rs -> set_eq (make_buildable rs) (ninja_buildable (emit_ninja sc)).
 Proof. exact backends_same_targets. Qed.
 Print Assumptions C06_targets.
 
@@ -75,10 +75,10 @@ Definition ex06_script : script :=
   mkScript [mkStep KCompile [mkOut 10 1; mkOut 11 1] (Some 1) None None [] [] [] [] [] [] [2] false true;
             mkStep KCommand [mkOut 12 0] None None None [] [] [] [10] [] [] [3] true false]
            100 101 102 103 104 [10] (Some ([10], [])) true true.
-Example ex06_targets :
-  exists rs, emit_make ex06_script = Some rs /\
+Example ex06_targets : forall fx,
+  exists rs, emit_make fx ex06_script = Some rs /\
     make_buildable rs = [100; 10; 11; 12; 101; 102; 103; 104] /\
     ninja_buildable (emit_ninja ex06_script) = [100; 11; 10; 12; 101; 102; 103; 104] /\
     In (mkM [NStamp 10] [NF 1; NF 2] [NDir 1] true false) rs /\
     In (mkNB [NPhony] true [] [] []) (emit_ninja ex06_script).
-Proof. eexists. split; [reflexivity|]. repeat split; cbn; tauto. Qed.
+Proof. intros fx. eexists. split; [reflexivity|]. repeat split; cbn; tauto. Qed.
